@@ -348,3 +348,172 @@ func TestC26TryFuse(t *testing.T) {
 		Rule:  "a NodeInfo with SlidingWindow(window, threshold) as in the window sub-check (20%: one of the two strategies absent) and hard or gradual recovery; the backend clock hook is set to a drawn non-decreasing timestamp before every step; steps are Slice.TryFuse with nil, mysql.ConnTypeError (dial, pool timeout), plain, *SQLError, pool-closed, context-deadline and EOF errors, or the prober marking the node up; reference = the node is down from the first connection error at which the number of connection errors in (now-W, now] >= threshold until the prober marks it up, nothing else changes its status; non-trivial = enabled breaker with >= 2 connection errors of which one expired or one fused, or a switched-off breaker that saw a connection error",
 		Floor: 0.5}, genFuse, checkFuse)
 }
+
+// ---- several replicas, strategies installed by the real InitFuseRecoveryPolicy ----
+
+type groupStep struct {
+	Delta int64 `json:"d"`    // clock advance (seconds, >= 0) before the operation
+	Node  int   `json:"node"` // replica index, taken modulo the number of replicas
+	Op    int   `json:"op"`   // index into errKinds = TryFuse on that replica with that error; -1 = the prober marks it up
+}
+
+type groupCase struct {
+	Window    int64       `json:"window"`
+	Threshold int64       `json:"threshold"`
+	Cooldown  int64       `json:"cooldown"` // > 0: hard cool-down recovery, otherwise gradual
+	Replicas  int         `json:"replicas"` // 2-4
+	ViaSlice  bool        `json:"via_slice"`
+	Base      int64       `json:"base"`
+	Steps     []groupStep `json:"steps"`
+}
+
+func genGroup(t *rapid.T) groupCase {
+	w := genWin(t)
+	c := groupCase{Window: w.Window, Threshold: w.Threshold, Base: w.Base, Replicas: rapid.IntRange(2, 4).Draw(t, "replicas"),
+		ViaSlice: rapid.Bool().Draw(t, "via_slice"), Cooldown: int64(rapid.SampledFrom([]int{0, 0, 1, 10, 120}).Draw(t, "cooldown"))}
+	if c.Base == 0 {
+		c.Base = 1
+	}
+	if c.Window < 0 {
+		c.Window = 0 // a negative window is refused by InitFuseRecoveryPolicy; 0 disables
+	}
+	connBias := rapid.IntRange(4, 8).Draw(t, "cb")
+	// bursts tend to stay on one replica or alternate between two, so that the sum over the
+	// group reaches the threshold while no single replica does
+	cur := 0
+	for _, d := range w.Deltas {
+		st := groupStep{Delta: d}
+		switch rapid.IntRange(0, 3).Draw(t, "nk") {
+		case 0:
+			cur = rapid.IntRange(0, c.Replicas-1).Draw(t, "node")
+		case 1:
+			cur = (cur + 1) % c.Replicas
+		}
+		st.Node = cur
+		k := rapid.IntRange(0, 9).Draw(t, "k")
+		switch {
+		case k < connBias:
+			st.Op = rapid.IntRange(1, 2).Draw(t, "ck")
+		case k == 9:
+			st.Op = -1
+		default:
+			st.Op = rapid.SampledFrom([]int{0, 3, 4, 5, 6, 7, 8}).Draw(t, "ok")
+		}
+		c.Steps = append(c.Steps, st)
+	}
+	return c
+}
+
+func checkGroup(c groupCase) (o pbt.Outcome) {
+	if c.Base < 1 || c.Base > 1<<41 || len(c.Steps) > 5000 || c.Replicas < 2 || c.Replicas > 8 || c.Window < 0 || c.Window > 4096 {
+		o.Skip = "outside the modelled domain"
+		return
+	}
+	for _, st := range c.Steps {
+		if st.Delta < 0 || st.Delta > 1<<30 || st.Op < -1 || st.Op >= len(errKinds) {
+			o.Skip = "decreasing or absurd timestamp step, or unknown operation"
+			return
+		}
+	}
+	now := c.Base
+	backend.VerifSetClock(func() time.Time { return time.Unix(now, 0) })
+	defer backend.VerifSetClock(nil)
+
+	group := &backend.DBInfo{}
+	for i := 0; i < c.Replicas; i++ {
+		addr := fmt.Sprintf("127.0.0.1:33%02d", i)
+		group.Nodes = append(group.Nodes, &backend.NodeInfo{Address: addr, Weight: 1, Status: backend.StatusUp, ConnPool: fakepool.New(addr, nil)})
+	}
+	s := &backend.Slice{Namespace: "ns", FuseEnabled: "ON", FuseWindowSize: c.Window, FuseMinErrorCount: c.Threshold, FuseCooldownPeriod: c.Cooldown}
+	s.Slave = group
+	var err error
+	if p := pbt.Catch(func() {
+		if c.ViaSlice {
+			err = s.InitFuseRecoveryPolicy(group)
+		} else {
+			err = group.InitFuseRecoveryPolicy(c.Window, c.Threshold, c.Cooldown)
+		}
+	}); p != "" {
+		o.Violation = "InitFuseRecoveryPolicy panicked: " + p
+		return
+	}
+	if err != nil {
+		o.Violation = fmt.Sprintf("InitFuseRecoveryPolicy(window %d, threshold %d, cooldown %d) failed: %v", c.Window, c.Threshold, c.Cooldown, err)
+		return
+	}
+	enabled := c.Window > 0 && c.Threshold > 0
+	if !enabled {
+		o.Labels = append(o.Labels, "breaker_off")
+	}
+	if c.Cooldown > 0 {
+		o.Labels = append(o.Labels, "hard_cooldown")
+	} else {
+		o.Labels = append(o.Labels, "gradual")
+	}
+	o.Labels = append(o.Labels, fmt.Sprintf("replicas_%d", c.Replicas))
+	connTimes := make([][]int64, c.Replicas) // reference: one window per replica
+	down := make([]bool, c.Replicas)
+	fused := 0
+	groupWouldFire := false // the errors of the whole group in the window reach the threshold while the replica's own do not
+	if p := pbt.Catch(func() {
+		for i, st := range c.Steps {
+			now += st.Delta
+			n := ((st.Node % c.Replicas) + c.Replicas) % c.Replicas
+			node := group.Nodes[n]
+			if st.Op == -1 {
+				node.SetStatusUp()
+				down[n] = false
+			} else {
+				k := errKinds[st.Op]
+				s.TryFuse(node, k.err)
+				if k.conn {
+					connTimes[n] = append(connTimes[n], now)
+					own, all := int64(0), int64(0)
+					for m := range connTimes {
+						for _, ts := range connTimes[m] {
+							if ts > now-c.Window {
+								all++
+								if m == n {
+									own++
+								}
+							}
+						}
+					}
+					if enabled && own >= c.Threshold {
+						if !down[n] {
+							fused++
+						}
+						down[n] = true
+					} else if enabled && all >= c.Threshold {
+						groupWouldFire = true
+					}
+				}
+			}
+			// every replica is compared after every step: an error on one must not move another
+			for m, nd := range group.Nodes {
+				if got := nd.IsStatusDown(); got != down[m] {
+					o.Violation = fmt.Sprintf("step %d at t=%d (op %d on replica %d; window %d, threshold %d, %d replicas): replica %d down=%v want %v (its own connection errors in the window: %v)",
+						i, now, st.Op, n, c.Window, c.Threshold, c.Replicas, m, got, down[m], connTimes[m])
+					return
+				}
+			}
+		}
+	}); p != "" {
+		o.Violation = "runtime panic: " + p
+		return
+	}
+	if fused > 0 {
+		o.Labels = append(o.Labels, "fused")
+	}
+	if groupWouldFire {
+		o.Labels = append(o.Labels, "group_sum_reaches_threshold_but_replica_does_not")
+	}
+	o.NonTrivial = enabled && (groupWouldFire || fused > 0)
+	return
+}
+
+func TestC26Replicas(t *testing.T) {
+	pbt.Run(t, pbt.Spec{ID: "C26", Sub: "replicas", Quick: 10000, Thorough: 100000,
+		Rule:  "a replica group of 2-4 NodeInfo whose fuse and recovery strategies are installed by the real DBInfo.InitFuseRecoveryPolicy(window, threshold, cooldown) (half of the cases through Slice.InitFuseRecoveryPolicy); window/threshold and timestamp steps as in the window sub-check, cooldown 0 (gradual) or 1-120 s (hard); every step picks a replica (staying, moving to the next, or drawn) and is TryFuse with a drawn error kind or the prober marking it up, under the injected clock; reference = one independent window count per replica; after every step every replica's status is compared; non-trivial = enabled breaker and either a replica fused or the connection errors of the whole group in the window reached the threshold while the replica's own did not",
+		Floor: 0.4}, genGroup, checkGroup)
+}
